@@ -30,6 +30,8 @@ from harness import spell
 
 FIELDS = ["u", "v", "w"]
 LAST_KLASS = None          # scenario class of the last run_one (for known-finding matching), set by the runners
+SHIFT_KLASS = {"grid": "whip/index-space-not-at-0", "plate": "mandoline2d/index-space-not-at-0",
+               "integral": "pestle/index-space-not-at-0", "point": "point-query/index-space-not-at-0"}
 
 
 def models(tier):
@@ -96,8 +98,23 @@ def run_one(chk, sc, cfgseed, what):
     ndims = 3 if what in ("point", "grid", "integral") else (2 if what == "plate" or cfgseed % 3 == 0 else 3)
     # (validations: one configuration in three has ONE field and one box per level -- one-row, one-column min/max tables)
     thin = what in ("taste", "read") and cfgseed % 3 == 1
-    d, ap, cfg_, reg = write(chk, sc, cfgseed, ndims, split=(what != "point" and cfgseed % 2 == 0 and not thin), even=(what == "integral"),
-                             fields=["only"] if thin else None)
+    # the mesh tools: one configuration in five lives in an index space that does not start at 0 (physical coordinates unchanged).
+    # KNOWN FINDINGS (known_findings.json, classes "<tool>/index-space-not-at-0"): whip, pestle, the 2-D flattening and the point
+    # query take raw cell indices for positions in the domain
+    global LAST_KLASS
+    shifted = what in SHIFT_KLASS and cfgseed % 5 == 2
+    orig_nested = nested_ap
+    if shifted:
+        LAST_KLASS = SHIFT_KLASS[what]
+
+        def shifted_ap(sc_, nd_, split_, rng_, even_=False):
+            return gamma.shift_indices(orig_nested(sc_, nd_, split_, rng_, even_), [[4, -2, 6], [-8, -4, -16]][(cfgseed // 5) % 2])
+        globals()["nested_ap"] = shifted_ap
+    try:
+        d, ap, cfg_, reg = write(chk, sc, cfgseed, ndims, split=(what != "point" and cfgseed % 2 == 0 and not thin), even=(what == "integral"),
+                                 fields=["only"] if thin else None)
+    finally:
+        globals()["nested_ap"] = orig_nested
     before = alpha.tree_digest(d)
     ds = spell.of(d, cfgseed)[0]
     rs = list(sc["ratios"])
@@ -214,7 +231,8 @@ def point(ds, ap, cfg_, reg, sc, cfgseed):
         dx = gamma.level_dx(cfg_, 3, ql)
         sel = sels[(cfgseed + n // 3) % len(sels)]
         idx = [box["lo"][d] + c[d] for d in range(3)]
-        pt = [cfg_.origin[d] + dx[d] * (idx[d] + 0.5) for d in range(3)]
+        s0 = gamma.ishift(ap, ql)
+        pt = [cfg_.origin[d] + dx[d] * (idx[d] - s0[d] + 0.5) for d in range(3)]
         try:
             with shims.pool_shim(shims.Scheduler()), core.quiet():
                 if keep:
@@ -260,7 +278,8 @@ def covering_grid(ap, cfg_, reg, lim, fi):
             arr = reg.array_of(("A", l, b, fi)).reshape(gamma.box_shape(box), order="F")
             for ax in range(nd):
                 arr = np.repeat(arr, f, axis=ax)
-            sl = tuple(slice(a * f, (h + 1) * f) for a, h in zip(box["lo"], box["hi"]))
+            s0 = gamma.ishift(ap, l)          # (index spaces that do not start at 0: positions are relative to the domain's first cell)
+            sl = tuple(slice((a - o) * f, (h + 1 - o) * f) for a, h, o in zip(box["lo"], box["hi"], s0))
             exp[sl] = arr
             glev[sl] = l
     return exp, glev
